@@ -66,7 +66,7 @@ inductive EvT
   | removeMark (w : Wid)
   | removeStep (w : Wid)
   | importDrain (w : Wid) (fuel : Nat)   -- the worker runs the queued rescan to its end
-  | removeDrain (w : Wid) (fuel : Nat)   -- the worker runs the queued removal to its end
+  | removeDrain (w : Wid)                -- the worker runs the queued removal to its end
   deriving Inhabited
 
 /-- the worker is done with a task: it leaves the queue -/
@@ -96,9 +96,10 @@ def stepT (cfg : Cfg) (crashing : Bool) (x : SysQ) : EvT → SysQ
       | some (P', V') => { x with P := P', V := dropTask V' (.imp w) }
       | none => x
     else x
-  | .removeDrain w fuel =>
+  | .removeDrain w =>
+    -- "until done": one more iteration than there are credits always suffices (`removeLoop_total`)
     if x.V.tasks.contains (.rem w) && !removeDone x.P w then
-      match removeLoop cfg.limit cfg.n (envAt cfg.st x.chain) w (addrsOf x.V.keys w) fuel x.P x.V with
+      match removeLoop cfg.limit cfg.n (envAt cfg.st x.chain) w (addrsOf x.V.keys w) (x.P.led.credits.length + 1) x.P x.V with
       | some (P', V') => { x with P := P', V := dropTask V' (.rem w) }
       | none => x
     else x
@@ -139,7 +140,7 @@ def skStepT (cfg : Cfg) (k : SkelT) : EvT → SkelT
   | .removeMark w => { k with busy := some (.rem w) }
   | .removeStep _ => k
   | .importDrain _ _ => { k with busy := none }
-  | .removeDrain w _ => { k with base := { k.base with ks := AMap.erase k.base.ks w }, busy := none }
+  | .removeDrain w => { k with base := { k.base with ks := AMap.erase k.base.ks w }, busy := none }
 
 def skRunT (cfg : Cfg) (k : SkelT) (evs : List EvT) : SkelT := evs.foldl (skStepT cfg) k
 
@@ -157,17 +158,23 @@ def ShortOK (cfg : Cfg) (k : Skel) : EvQ → Prop
 
 /-- which round-3 events are covered INSIDE a task window.
     Import window: node events (extensions, reorganisations to any branch), unconfirmed transactions, crashes ANYWHERE,
-    handler steps as long as no queued notification is stale; no CreateWallet / NewAddress.
+    handler steps for ANY queued notification (stale ones included), CreateWallet, NewAddress of the other wallets.
     Removal window: node events, crashes while no notification is pending; no handler step (C08 has no follower-step
     theorem for a partly deleted wallet), no unconfirmed transaction (C08's `pendOff`), no CreateWallet / NewAddress. -/
 def WindowOK (k : SkelT) : EvQ → Prop
-  | .create _ => k.busy = none
-  | .newAddr _ _ => k.busy = none
-  | .handle =>
+  | .create _ =>
+    match k.busy with
+    | some (.rem _) => False
+    | _ => True
+  | .newAddr w1 _ =>
     match k.busy with
     | none => True
-    | some (.imp _) => QueueOnChain k
+    | some (.imp w) => w1 ≠ w      -- NewAddress is refused for the wallet being restored (UseWallet wants it ready)
     | some (.rem _) => False
+  | .handle =>
+    match k.busy with
+    | some (.rem _) => False
+    | _ => True
   | .crash =>
     match k.busy with
     | some (.rem _) => k.queue = []
@@ -194,7 +201,7 @@ def StepOKT (cfg : Cfg) (G : Block) (k : SkelT) : EvT → Prop
     k.busy = none ∧ (∃ r, AMap.get k.base.ks w = some r ∧ r.addrs ≠ []) ∧ ∃ w', w' ≠ w ∧ w' ∈ walletsOf k.base.ks
   | .removeStep w => k.busy = some (.rem w)
   | .importDrain w fuel => k.busy = some (.imp w) ∧ k.queue = [] ∧ k.base.chain.length + 1 ≤ fuel
-  | .removeDrain w _ => k.busy = some (.rem w)
+  | .removeDrain w => k.busy = some (.rem w)
 
 def RunOKT (cfg : Cfg) (G : Block) : SkelT → List EvT → Prop
   | _, [] => True
